@@ -44,6 +44,19 @@ Proof.
     + destruct H; [congruence|contradiction].
 Qed.
 
+(* tn.weight_mask as implemented (requested weights de-duplicated first): exactly 1 on the strings whose sum is
+   requested and 0 on all others, for every list of weights *)
+Corollary C16_mask_accepts_exactly : forall (w nss idx : list nat), nss <> [] -> length idx = length nss ->
+  eval (K:=ZO) (weight_mask_u w nss) idx = if in_dec Nat.eq_dec (sumlist idx) w then 1%Z else 0%Z.
+Proof.
+  intros w nss idx Hne Hl. unfold weight_mask_u.
+  rewrite C16_mask_01 by (try assumption; apply NoDup_nodup).
+  destruct (in_dec Nat.eq_dec (sumlist idx) (nodup Nat.eq_dec w)) as [H|H],
+           (in_dec Nat.eq_dec (sumlist idx) w) as [H'|H']; try reflexivity; exfalso.
+  - apply H'. apply (nodup_In Nat.eq_dec). exact H.
+  - apply H. apply (nodup_In Nat.eq_dec). exact H'.
+Qed.
+
 (* accepted_inputs, for non-negative integer-valued TT networks (first bond 1) *)
 Theorem C16_accepted : forall (cs : list (score ZO)), cs <> [] ->
   chain (match cs with c :: _ => rl c | [] => O end) cs = true ->
@@ -62,5 +75,6 @@ Proof. split; vm_compute; reflexivity. Qed.
 Print Assumptions C16_one_hot.
 Print Assumptions C16_mask.
 Print Assumptions C16_mask_01.
+Print Assumptions C16_mask_accepts_exactly.
 Print Assumptions C16_weight.
 Print Assumptions C16_accepted.
